@@ -15,14 +15,44 @@ META = {
 KEYED = ('get', 'get_mut', 'get_all', 'entry', 'remove')
 
 
+def sanitiser_facts(tonic):
+    """what into_sanitized_headers does, independent of its spelling (for-loop, or iter().for_each(|n| ..remove(n))):
+    dict(removes=[(body, bb, call)], recv_ok, key_ok, all_visited, returns_own)"""
+    sh = tonic.body('metadata::map::MetadataMap::into_sanitized_headers')
+    fam = [sh] + [c for c in tonic.bodies if c.kind == 'closure' and c.path.startswith(sh.path + '::')]
+    removes = [(fb, bb, t) for fb in fam for bb, t in fb.calls(pat='HeaderMap', name='remove')]
+    out = dict(body=sh, removes=removes, recv_ok=False, key_ok=False, all_visited=False, returns_own=False, key='')
+    from_table = lambda t_: mentions_constdef(t_, 'GRPC_RESERVED_HEADERS') or any('GRPC_RESERVED_HEADERS' in show(x) for x in find_terms(t_, lambda x: x and x[0] in ('constdef', 'promoted')))
+    if len(removes) == 1:
+        fb, bb, t = removes[0]
+        recv = resolve_env(tonic, fb, fb.origin(t['args'][0]))
+        out['recv_ok'] = mentions_field(recv, 'headers') and arg_root(strip_refs(recv)) == 1
+        key = fb.origin(t['args'][1])
+        out['key'] = show(key)[:120]
+        if fb is sh:
+            it = find_terms(key, lambda x: is_call(x, name='next'))
+            out['key_ok'] = bool(it) and from_table(key)
+            out['all_visited'] = bool(sh.succs(bb)) and bb in sh.reachable(sh.succs(bb)[0])
+        else:
+            # closure form: the key is the closure's parameter and the closure is what a for_each over the table calls
+            k0 = strip_refs(key)
+            is_param = k0[0] == 'arg'
+            drivers = [(pb, pt) for pb, pt in sh.calls() if pt.get('name') in ('for_each', 'try_for_each') and any(strip_refs(sh.origin(a_))[0] == 'agg' and strip_refs(sh.origin(a_))[1].get('def') == fb.path for a_ in pt['args'])]
+            out['key_ok'] = is_param and len(drivers) == 1 and from_table(sh.origin(drivers[0][1]['args'][0]))
+            out['all_visited'] = len(drivers) == 1 and drivers[0][1].get('name') == 'for_each' and not find_terms(sh.origin(drivers[0][1]['args'][0]), lambda x: is_call(x) and x[3] in ('take', 'skip', 'filter', 'step_by', 'take_while', 'skip_while'))
+    rt = mirlib.returned_terms(sh)
+    out['returns_own'] = len(rt) == 1 and field_names(rt[0][1])[-1:] == ['headers'] and arg_root(strip_refs(rt[0][1])) == 1
+    out['returns'] = show(rt[0][1]) if rt else None
+    return out
+
+
 def check_sanitiser(R, tonic, rule):
     """into_sanitized_headers removes names from the map in place (every value of every other name survives); no owned HeaderMap iteration"""
-    sh = tonic.body('metadata::map::MetadataMap::into_sanitized_headers')
+    f = sanitiser_facts(tonic)
+    sh = f['body']
     R.saw(sh)
-    rm = sh.calls(pat='HeaderMap', name='remove')
-    R.check(len(rm) == 1 and mentions_field(sh.origin(rm[0][1]['args'][0]), 'headers'), rule, 'sanitiser-removes-in-place', site(sh), 'HeaderMap::remove on self.headers: %d site(s)' % len(rm))
-    rt = mirlib.returned_terms(sh)
-    R.check(len(rt) == 1 and field_names(rt[0][1])[-1:] == ['headers'], rule, 'sanitiser-returns-own-map', site(sh), 'returns %s (the same map, not a rebuilt one)' % (show(rt[0][1]) if rt else None))
+    R.check(len(f['removes']) == 1 and f['recv_ok'], rule, 'sanitiser-removes-in-place', site(sh), 'HeaderMap::remove on self.headers: %d site(s), receiver ok: %r' % (len(f['removes']), f['recv_ok']))
+    R.check(f['returns_own'], rule, 'sanitiser-returns-own-map', site(sh), 'returns %s (the same map, not a rebuilt one)' % f['returns'])
     offenders = []
     for bd in tonic.bodies:
         if bd.kind == 'promoted':
@@ -48,22 +78,16 @@ def run(R):
         R.eq(len(names), 6, 'C08.R1', 'count', site(b), 'number of reserved names')
         c = tonic.consts.get('tonic::metadata::map::MetadataMap::GRPC_RESERVED_HEADERS')
         R.check(c is not None and '; 6]' in tonic.tys[c['ty']], 'C08.R1', 'array-type', site(b), 'type = %s' % (tonic.tys[c['ty']] if c else None))
-        sh = tonic.body('metadata::map::MetadataMap::into_sanitized_headers')
+        f = sanitiser_facts(tonic)
+        sh = f['body']
         R.saw(sh)
-        rm = sh.calls(pat='HeaderMap', name='remove')
-        R.check(len(rm) == 1, 'C08.R1', 'remove-in-loop', site(sh), 'HeaderMap::remove sites: %d' % len(rm))
-        if rm:
-            bb, t = rm[0]
-            key = sh.origin(t['args'][1])
-            it = [x for x in find_terms(key, lambda x: is_call(x, name='next'))]
-            src = [x for x in find_terms(key, lambda x: x and x[0] in ('constdef', 'promoted'))]
-            src_ok = mentions_constdef(key, 'GRPC_RESERVED_HEADERS') or any('GRPC_RESERVED_HEADERS' in show(x) for x in src)
-            R.check(bool(it) and src_ok, 'C08.R1', 'removes-each-reserved', site(sh, bb), 'removed key iterates over %s' % show(key)[:160])
-            R.check(mentions_field(sh.origin(t['args'][0]), 'headers'), 'C08.R1', 'removes-from-own-headers', site(sh, bb), 'receiver = %s' % show(sh.origin(t['args'][0])))
-            # it is a loop: the remove block can reach itself
-            R.check(bb in sh.reachable(sh.succs(bb)[0]) if sh.succs(bb) else False, 'C08.R1', 'loop-over-all', site(sh, bb), 'the remove is inside a loop over the whole array')
-        rt = mirlib.returned_terms(sh)
-        R.check(len(rt) == 1 and field_names(rt[0][1])[-1:] == ['headers'], 'C08.R1', 'returns-headers', site(sh), 'returns %s' % show(rt[0][1]))
+        R.check(len(f['removes']) == 1, 'C08.R1', 'remove-in-loop', site(sh), 'HeaderMap::remove sites: %d' % len(f['removes']))
+        if f['removes']:
+            fb, bb, t = f['removes'][0]
+            R.check(f['key_ok'], 'C08.R1', 'removes-each-reserved', site(fb, bb), 'removed key ranges over GRPC_RESERVED_HEADERS: %s' % f['key'])
+            R.check(f['recv_ok'], 'C08.R1', 'removes-from-own-headers', site(fb, bb), 'receiver is self.headers: %r' % f['recv_ok'])
+            R.check(f['all_visited'], 'C08.R1', 'loop-over-all', site(fb, bb), 'the remove is applied to every element of the array (loop / for_each)')
+        R.check(f['returns_own'], 'C08.R1', 'returns-headers', site(sh), 'returns %s' % f['returns'])
 
     # ---------------------------------------------------------------- R2 who sanitises
     R.describe('C08.R2', 'who-may-call: into_headers (unsanitised) is called only from Request::into_http on the SanitizeHeaders::No arm; SanitizeHeaders::No is passed only by the interceptor; all other outbound conversions sanitise')
